@@ -633,7 +633,7 @@ fn c14_headers_block() {
     std::mem::forget(r);
 }
 
-// @harness props=C16,C15 props_thorough=C03 tiers=quick:K=3|K=4|K=6;thorough:K=3|K=4|K=6|K=0 unwind=24 cap=1500 mem=6 covers=2
+// @harness props=C16,C15 props_thorough=C03 tiers=quick:K=3|K=4|K=6;thorough:K=3|K=4|K=6 unwind=24 cap=1500 mem=6 covers=2
 // @fn MediaType::try_from MediaType::as_str
 // @stubs std::str::from_utf8(model:RFC3629-validator)
 // @claim media types: accepted iff the bytes, after trimming whitespace only, are exactly `text/plain` or `application/json`, with the matching variant; as_str of the result is that canonical spelling; anything else (including NUL, control or non-ASCII bytes around the token) is rejected
